@@ -587,6 +587,7 @@ def gen_legal(rng, nnets=None, levels=None, extra_blocks=True, d1=False):
             d.add_write(blk, x, rng); break
   if d1 and add_d1_shape(d, rng): d.tags.append('d1')
   if rng.random() < 0.35: add_slice_key_collision(d, rng)
+  if rng.random() < 0.3: add_deep_override(d, rng, 'legal')
   assign_nests(d, rng)
   return d
 
@@ -651,6 +652,55 @@ def add_slice_key_collision(d, rng):
     d.add_conn(A, d.whole(d.add_sig(comp, f'x{len(d.sigs)}', 'wire', typ)), comp)   # ... and nested in a connect
   for o in (A, B): d.drive(o, ('net', ('gadget', x))); d.marked.add(o)
   d.tags.append('slice-key-collision:' + mode)
+
+def add_deep_override(d, rng, mode='legal'):
+  """default-then-override two levels deep: ONE block writes a struct object T (whole signal or a struct field) and a part
+  D1 at least two levels below it; another part D2 under the same intermediate node (sibling field / disjoint slice) is
+  mode 'legal': the writer of a net (driven through T);  'blk' / 'const': additionally driven by a block-written wire /
+  a constant (second driver -> MultiWriterError)"""
+  comp = rng.randrange(len(d.comps))
+  ch = d.comps[comp]['children']
+  shape = rng.choice(['field-field', 'field-slice', 'deep-slice', 'deep-mixed', 'mid-slice'])
+  typ = ('s', 'PA') if shape == 'field-slice' else ('s', 'PB')
+  if mode == 'legal' and ch and rng.random() < 0.3: sid = _fresh(d, rng.choice(ch), 'in', typ)
+  else: sid = _fresh(d, comp, rng.choice(['wire', 'out']), typ)
+  host = d.sigs[sid]['comp']
+  def sl(fields, width):
+    cut = rng.randint(1, width - 1)
+    a, b = ('sig', sid, fields, (0, cut)), ('sig', sid, fields, (cut, width))
+    if rng.random() < 0.3 and width - cut >= 2: b = ('sig', sid, fields, (cut + 1, width))
+    return (a, b) if rng.random() < 0.5 else (b, a)
+  T = d.whole(sid)
+  if shape == 'field-field':     # PB: x and x.p.a ; x.p.b
+    D1, D2 = ('sig', sid, (1, 0), None), ('sig', sid, (1, 1), None)
+    if rng.random() < 0.5: D1, D2 = D2, D1
+  elif shape == 'field-slice':   # PA: x and x.b[..] ; x.b[..]   (or field a)
+    k, w = rng.choice([(0, 4), (1, 8)])
+    D1, D2 = sl((k,), w)
+  elif shape == 'deep-slice':    # PB: x and x.p.b[..] ; x.p.b[..]
+    k, w = rng.choice([(0, 4), (1, 8)])
+    D1, D2 = sl((1, k), w)
+  elif shape == 'deep-mixed':    # PB: x and x.p.b[..] ; x.p.a   (intermediate node x.p recorded as not propagatable)
+    D1 = ('sig', sid, (1, 1), (rng.randint(0, 3), rng.randint(4, 8))); D2 = ('sig', sid, (1, 0), None)
+  else:                          # PB: x.p and x.p.b[..] ; x.p.b[..]  (the struct object written is a field itself)
+    T = ('sig', sid, (1,), None)
+    D1, D2 = sl((1, 1), 8)
+  blk = d.new_blk(_writer_comp(d, T), False)
+  for o in ([T, D1] if rng.random() < 0.7 else [D1, T]):
+    d.add_write(blk, o, rng, rhs=('k', rng.randrange(1 << twidth(d.otype(o)))))
+  t2 = d.otype(D2)
+  if mode == 'legal':
+    y = d.whole(_fresh(d, host, 'wire', t2))
+    d.add_conn(D2, y, host)
+    d.drive(y, ('net', ('deep', sid))); d.marked.add(y)
+    d.netinfo.append(dict(writer=D2, members=[D2, y], kind='derived', id=('deep', sid)))
+  elif mode == 'blk':
+    w = d.whole(_fresh(d, host, 'wire', t2)); _blk_write(d, rng, host, w)
+    d.add_conn(w, D2, host)
+  else:
+    assert _const_on(d, rng, D2)
+  d.tags.append(f'deep-override:{shape}:{mode}')
+  return 'MultiWriterError'
 
 def gen_self_overlap(rng):
   """a net whose reader shares bits with its own writer: x[a:b] drives x[c:d] of the same signal"""
@@ -1211,6 +1261,7 @@ INJECTORS = {
   'op2_u_for': lambda d, r: inj_op2(d, r, False, 'for'),
   'op2_f_eq': lambda d, r: inj_op2(d, r, True, 'assign'), 'op2_f_at': lambda d, r: inj_op2(d, r, True, 'at'),
   'op2_f_for': lambda d, r: inj_op2(d, r, True, 'for'),
+  'deep_override_vs_blk': lambda d, r: add_deep_override(d, r, 'blk'), 'deep_override_vs_const': lambda d, r: add_deep_override(d, r, 'const'),
 }
 
 def inject(d, rng, kind):
